@@ -19,6 +19,7 @@ def run(ck):
     ck.coq_props()
     ic.run_regions(ck, "C02")
     ic.run_bridge(ck, "C02")
+    ic.run_cells(ck, "C02")
     res = ic.run_level1(ck, "C02")
     if res is None:
         return
@@ -87,9 +88,11 @@ def run_http(ck):
         b2 = [byid[i] for i in res["mism"]] or res["broken"]
         worst = min(b2, key=lambda c: (len(c["ops"]), len(c["reqs"])))
         ck.violation({"property": "C02", "kind": "model/implementation disagree on an HTTP script", "case": worst}, no_input=True)
-    ck.obligation("the freshness hypothesis fresh_run holds on every HTTP script (%d): rows recognised by content, each submitted by one sub-request" % len(res["good"]),
+    nrep = len(res.get("repeat") or [])
+    ck.obligation("the freshness hypothesis fresh_run holds on every HTTP script that does not push the same series twice (%d; the %d scripts of class repeat submit the same series row "
+                  "from several pushes by design): rows recognised by content, each submitted by one sub-request" % (len(res["good"]) - nrep, nrep),
                   not res["notfresh"], "not fresh: %s" % res["notfresh"][:10])
-    ck.extra.setdefault("input_distribution", {})["fresh_run_holds_http_scripts"] = "%d of %d" % (len(res["good"]) - len(res["notfresh"]), len(res["good"]))
+    ck.extra.setdefault("input_distribution", {})["fresh_run_holds_http_scripts"] = "%d of %d (class repeat excluded: %d)" % (len(res["good"]) - nrep - len(res["notfresh"]), len(res["good"]) - nrep, nrep)
     ic.coverage_level2(ck, res)
     soak = ic.run_soak(ck, "C02")
     if soak is not None:
